@@ -130,8 +130,9 @@ func (d pageData) repoList() *zoekt.RepoList {
 	}
 	return &zoekt.RepoList{
 		Repos: []*zoekt.RepoListEntry{
-			mk(v("repo"), v("repo-url"), d.commit),
-			mk("plain", "", ""),
+			// the page sorts by name: keep the order independent of the value
+			mk("a-"+v("repo"), v("repo-url"), d.commit),
+			mk("m-plain", "", ""),
 			mk("z-"+v("repo"), "https://example.com/"+v("repo-url"), "https://example.com/c/{{.Version}}"),
 		},
 		Stats: zoekt.RepoStats{Repos: 3, Documents: 9},
@@ -175,6 +176,9 @@ func queryFor(payload string, repoOnly bool) string {
 		cands = []string{"r:" + payload}
 	}
 	for _, c := range cands {
+		if strings.TrimSpace(c) == "" || c == "r:" {
+			continue
+		}
 		q, err := query.Parse(c)
 		if err != nil {
 			continue
